@@ -354,7 +354,16 @@ impl Prop for C15 {
                 }
                 match (&e, &truth) {
                     (SolverError::Infeasible, Verdict::Infeasible) | (SolverError::Unbounded, Verdict::Unbounded) => Outcome::Pass { nontrivial: false, labels },
-                    (SolverError::Infeasible, t) => Outcome::fail(format!("infeasible-verdict-vs-{}", crate::props::c05::verdict_name(t)), ctx(String::new())),
+                    (SolverError::Infeasible, t) => {
+                        // recorded finding (C03): through the builder the model is compiled first, and a
+                        // published range narrower than 1e-9 makes the dependency answer Infeasible
+                        let class = if case.via_builder && builder_of(&case.model).linearize().map(|l| crate::props::c03::narrow_published_range(&l)).unwrap_or(false) {
+                            ":published-range-narrower-than-1e-9"
+                        } else {
+                            ""
+                        };
+                        Outcome::fail(format!("infeasible-verdict-vs-{}{class}", crate::props::c05::verdict_name(t)), ctx(String::new()))
+                    }
                     (SolverError::Unbounded, t) => {
                         let class = crate::props::c05::microlp_class(c, t, crate::props::solvers::Which::Milp, &crate::props::solvers::Ans::Unbounded);
                         Outcome::fail(format!("unbounded-verdict-vs-{}{class}", crate::props::c05::verdict_name(t)), ctx(String::new()))
